@@ -10,8 +10,14 @@ from .common import Failure, f2h, h2f, parse_reply, vec
 
 ID = "C16"
 BIN = "c16"
-PROOF_MODULES = ["Compute.Props.C16"]
-REQUIRED_THEOREMS = []
+PROOF_MODULES = ["Compute.Lemmas.C16", "Compute.Props.C16"]
+REQUIRED_THEOREMS = [
+    "Cv.C16.scan_brackets", "Cv.C16.bracket_unique", "Cv.C16.interp_knot", "Cv.C16.interp_inside", "Cv.C16.lineAt_between",
+    "Cv.C16.interp_left_panic", "Cv.C16.interp_left_fill", "Cv.C16.interp_left_extrapolate",
+    "Cv.C16.interp_right_panic", "Cv.C16.interp_right_fill", "Cv.C16.interp_right_extrapolate",
+    "Cv.C16.checked_rejects_length", "Cv.C16.checked_rejects_unsorted", "Cv.C16.checked_eq_unchecked",
+    "Cv.C16.panic_mode_rejects", "Cv.C16.interpAll_eq_some_iff", "Cv.C16.interpAll_eq_none_iff",
+]
 RULE = ("knot counts 2..200, strictly increasing abscissae with neighbouring spacing ratios up to 1e6, finite ordinates of "
         "mixed magnitude; targets at every kind of position (knots, midpoints, +-1 ulp around knots, random interior, just "
         "beyond and far beyond both ends); three modes x checked/unchecked; rejected inputs (unsorted, mismatched lengths); "
@@ -289,7 +295,8 @@ def oracle(lines, impl):
                 if err is not None and scale > 0:
                     note("extrap_u", float(err / scale))
                 # slope: two subtractions and a division (3u), distance and product (2u), final sum (1u) => < 7u(|prod|+|y|)
-                if err is None or err > 16 * scale + 16 * TINY:
+                # (a subnormal slope carries an absolute error of half a subnormal ulp, multiplied by the distance)
+                if err is None or err > 16 * scale + TINY * (16 + 2 * abs(ft - fx[anchor])):
                     fails.append(Failure(i, key + ":" + side, "target %r %s of the data: got %r, the extended %s segment gives %r" % (
                         t, side, got, "first" if left else "last", float(exact)), f2h(float(exact))))
                     break
